@@ -141,6 +141,24 @@ def DrainCol.drop (m : Mode) (d : DrainCol α) : Res (TD α × List α) := do
   if ¬ newLen ≤ buf.length then throw .ub
   pure (⟨buf.take newLen, finalRows, newCols⟩, dropped)
 
+/-- `Drop for DrainCol` as written in the Rust: `while let Some(item) = self.next() { let guard = DropGuard(self); drop(item);
+    mem::forget(guard); }  DropGuard(self);` where `DropGuard::drop` = "drop the rest, compact" = `DrainCol.drop` above.
+    `j` = which call of the element destructor panics (one-shot), if any.  Returns the array, the dropped elements, and whether
+    the panic fired (it then propagates after the guard has run during unwinding).  Fuelled. -/
+def DrainCol.dropLoop (m : Mode) : Nat → DrainCol α → Option Nat → List α → Res ((TD α × List α) × Bool)
+  | 0, _, _, _ => throw .fuel
+  | fuel + 1, d, j, acc => do
+    let (x, d') ← d.next
+    match x with
+    | none => do
+      let (t, rest) ← d'.drop m
+      pure ((t, acc ++ rest), false)
+    | some item =>
+      if j = some 0 then do
+        let (t, rest) ← d'.drop m
+        pure ((t, acc ++ [item] ++ rest), true)
+      else DrainCol.dropLoop m fuel d' (j.map (· - 1)) (acc ++ [item])
+
 /-- leaking a `DrainCol`: the `Vec` stays at length 0 with zero dimensions; every element not yet moved out is leaked -/
 def DrainCol.leak (d : DrainCol α) : TD α × List α :=
   (⟨[], 0, 0⟩, (d.buf.zipIdx.filter fun xi => !d.taken.contains xi.2).map (·.1))
